@@ -25,12 +25,14 @@ theorem invB_heap_congr {s : State} {heap' : Ref → Entry} (hI : InvB s)
     · exact e.no_bad
   · intro t ht
     have e := hI.thr t ht
-    constructor <;> simp only [c1]
+    constructor <;> simp only [c1, c4]
     · exact e.held_id
     · exact e.ret_val
     · exact e.ret_objs
     · exact e.commit_live
+    · exact e.same_target
     · exact e.load_loading
+    · exact e.remove_op
 
 theorem invC_heap_congr {s : State} {heap' : Ref → Entry} (hI : InvC s)
     (hc : ∀ r, CoreEq (heap' r) (s.heap r)) : InvC { s with heap := heap' } := by
